@@ -30,3 +30,19 @@ package types
 //@   props C03
 //@   requires n >= 0
 //@   ensures[same-leaf] leafValue(leafType, originNetwork, originAddress, destinationNetwork, destinationAddress, amount, bytesOf(md, n)) == exitLeafValue(leafType, originNetwork, originAddress, destinationNetwork, destinationAddress, amount, ite(n == 0, bytesOf(hb(keccak(emptyB())), 32), bytesOf(hb(keccak(catB(emptyB(), bytesOf(md, n)))), 32)))
+
+// ---- the global index inside the commitments (C10): both commitments use the 32-byte little-endian form of the
+// canonical value flag*2^64 + (flag ? 0 : rollup)*2^32 + leaf, the same value the wire conversion sends
+//@ spec fn giVal(flag bool, rollup int, leaf int) int = ite(flag, 18446744073709551616, rollup * 4294967296) + leaf
+
+//@ func (g *GlobalIndex) Hash
+//@   props C10 C19
+//@   requires g != nil
+//@   modifies nothing
+//@   ensures[commits-to-canonical-index] result == keccak(catB(emptyB(), leB(giVal(g.MainnetFlag, g.RollupIndex, g.LeafIndex))))
+
+//@ func (c *ImportedBridgeExit) GlobalIndexToLittleEndianBytes
+//@   props C10 C19
+//@   requires c != nil && c.GlobalIndex != nil
+//@   modifies nothing
+//@   ensures[canonical-index-bytes] len(result) == 32 && bytesOf(seq(result), 32) == leB(giVal(c.GlobalIndex.MainnetFlag, c.GlobalIndex.RollupIndex, c.GlobalIndex.LeafIndex))
